@@ -170,6 +170,8 @@ def main():
         ap = apalache.mirror_inductive()
         print("MirrorInd.tla: base and inductive step hold, unguarded fresh path refuted:", True,
               "|", {k: v["outcome"] for k, v in ap["runs"].items()})
+        tp = apalache.mirror_tlaps()
+        print("MirrorIndProofs.tla (TLAPS, arbitrary carrier sets): %d of %d obligations proved" % (tp["discharged"], tp["obligations"]))
     except C.ToolError as e:
         print("MirrorInd.tla:", e)
         good = False
